@@ -26,6 +26,7 @@
 EXTENDS Integers, Sequences, FiniteSets, TLC, Json
 
 CONSTANTS Limit, Escape, Bursts, Kinds, MaxSteps,
+          Histories,      \* numbers of PINGs exchanged (sent, answered, answer read) before the client stops reading
           EscapeChoices   \* how many frames escape in one burst: 0..Escape in the exhaustive run, {0} in the generator
 
 Yield(k) == CASE k = "PING" -> 1 [] k = "WU0" -> 1 [] k = "DATAC" -> 2 [] k = "SETTINGS" -> 0 [] OTHER -> 0
@@ -34,10 +35,19 @@ VARIABLES queued,    \* sc.queuedControlFrames
           escaped,   \* frames the writer moved out of the queue before blocking
           elicited,  \* control frames elicited since the client stopped reading
           up,        \* connection not yet closed by the server
+          hist,      \* ordinary exchanges completed before the flood (-1: not chosen yet)
           h          \* history: bursts with the expectation after each
-vars == <<queued, escaped, elicited, up, h>>
+vars == <<queued, escaped, elicited, up, hist, h>>
 
-Init == queued = 0 /\ escaped = 0 /\ elicited = 0 /\ up = TRUE /\ h = <<>>
+Init == queued = 0 /\ escaped = 0 /\ elicited = 0 /\ up = TRUE /\ hist = -1 /\ h = <<>>
+
+\* The connection has a past: n PINGs, each queued (+1), taken by the scheduler (-1), written,
+\* flushed and read by the client.  Nothing of it is pending when the flood starts, so the
+\* Layer-P bounds below count only what the client elicits after it stopped reading.
+Exchange(n) ==
+  /\ hist = -1 /\ hist' = n
+  /\ queued' = queued + n - n
+  /\ UNCHANGED <<escaped, elicited, up, h>>
 
 Min(a, b) == IF a < b THEN a ELSE b
 
@@ -45,7 +55,8 @@ Min(a, b) == IF a < b THEN a ELSE b
 \* checks the limit after each; between iterations the writer may take frames while there
 \* is room (at most Escape in total).  e frames escape during this burst.
 Burst(k, n, e) ==
-  /\ up /\ Len(h) < MaxSteps
+  /\ up /\ hist >= 0 /\ Len(h) < MaxSteps
+  /\ UNCHANGED hist
   /\ e \in 0..Min(Escape - escaped, n * Yield(k))
   /\ LET y == Yield(k)
          tot == queued + n * y - e           \* if the connection survives the whole burst
@@ -62,7 +73,8 @@ Burst(k, n, e) ==
                         mayClose |-> elicited + n * y > Limit,
                         bound |-> Limit])
 
-Next == \E k \in Kinds, n \in Bursts, e \in EscapeChoices : Burst(k, n, e)
+Next == \/ \E n \in Histories : Exchange(n)
+        \/ \E k \in Kinds, n \in Bursts, e \in EscapeChoices : Burst(k, n, e)
 Spec == Init /\ [][Next]_vars
 
 \* Layer P over Layer M
@@ -72,5 +84,5 @@ MayOnly == ~up => elicited > Limit
 Delivered == up => escaped + queued <= Limit + Escape
 
 \* generator: print every maximal behaviour once
-Emit == (Len(h) = MaxSteps \/ ~up) /\ Len(h) > 0 => PrintT(ToJson([bursts |-> h]))
+Emit == (Len(h) = MaxSteps \/ ~up) /\ Len(h) > 0 => PrintT(ToJson([hist |-> hist, bursts |-> h]))
 =============================================================================
